@@ -116,6 +116,32 @@ CLAIMED["C10"] = dict(
     technique="Coq proof (ranges partition, canonical sorting, dict insert semantics) + in-Coq correspondence of every metadata accessor",
     design="8 C10")
 
+CLAIMED["C17"] = dict(
+    text="Coq: in the materializer's three-layer context a name resolves to data, then context, then transforms, and the reported source is the layer that "
+         "supplied it (all layer contents/overlaps); '.' is exactly the available variables not used on the lhs, in order; for formulas of looked-up "
+         "names each name is sufficient and necessary for factor evaluation in the build model. Layered-mapping, parser ('.') and build (missing "
+         "variables) models are evaluated in Coq on the implementation's cases; sufficiency/necessity before and after materialization, sources "
+         "and '.' are checked directly, including Python-expression factors.",
+    note="Coq kernel + vm_compute; which names a Python fragment needs is CPython behaviour: validated by materializing on restricted data, not proved",
+    technique="Coq proof over layered-mapping / parser / build models + in-Coq correspondence + remove-one-variable oracle",
+    design="8 C17")
+CLAIMED["C18"] = dict(
+    text="Heap model of specs holding references to their state dictionaries; theorem: after ANY sequence of builds, updates and reuses every earlier spec "
+         "reaches the same dictionary contents, given that preparing a spec for a build copies both dictionaries -- a fact regenerated from /repo's "
+         "AST each run (and refuted for the uncopied regime); drop sets are independent of the factor pool's hash order. Histories on the "
+         "implementation are compared with the model and re-executed call by call (bit-identical); results are compared across 5 hash seeds.",
+    note="Coq kernel + vm_compute; AST-derived purity facts (translator); CPython hash-seed independence observed in subprocesses, not proved",
+    technique="Coq invariant proof over operation histories on a heap model + generated purity facts + history correspondence + hash-seed subprocess runs",
+    design="8 C18")
+CLAIMED["C20"] = dict(
+    text="Coq (over exact rationals, axiom-free): differentiate_term returns per term zero / the term without the factor / one, successively for several "
+         "variables, with the same number and order of terms; for terms with distinct factors the derivative evaluates to the exact finite difference "
+         "for every environment and every step h<>0. Model = implementation on differentiated term lists; every non-zero derivative term is "
+         "materialized (formula and model-spec routes) and compared with the exact finite difference of the original column.",
+    note="Coq kernel + vm_compute; use_sympy=True needs sympy (not installed): out of scope",
+    technique="Coq proof (product-rule algebra over Qc) + in-Coq correspondence + exact finite-difference oracle on materialized matrices",
+    design="8 C20")
+
 NOT_YET = {}
 
 
